@@ -64,8 +64,17 @@ def native_run(h, tests, release=False):
 def replay_failure(h, prop, logdir):
     """Re-run a failed harness with concrete playback, replay natively, write the replay file.
     Returns (reproduced: bool, replay_path or None, detail)."""
-    r = run_harness(h, logdir, playback=True)
-    all_tests = extract_tests(r["text"] or "")
+    if getattr(h, "concrete", False):
+        # a harness without any kani::any() input is its own replay: run its body natively (a second CBMC run
+        # in trace mode takes hours for the connection harnesses and would add nothing)
+        tname = "kani_concrete_playback_%s_no_symbolic_input" % h.short
+        src = ("/// Check for `assertion`: \"harness without symbolic input, executed natively\"\n#[test]\nfn %s() {\n"
+               "    let concrete_vals: Vec<Vec<u8>> = vec![];\n    kani::concrete_playback_run(concrete_vals, %s);\n}\n"
+               % (tname, h.short))
+        all_tests = [("assertion", "harness without symbolic input fails natively", tname, src)]
+    else:
+        r = run_harness(h, logdir, playback=True)
+        all_tests = extract_tests(r["text"] or "")
     # Kani writes playback tests for failed assertions and for satisfied cover witnesses, but none for
     # CBMC's built-in checks (e.g. "memcpy src/dst overlap").  The witness tests are tried as well: they
     # count only if the *native* run fails, so a witness that does not hit the defect changes nothing.
